@@ -55,7 +55,7 @@ fn fault_static(s: &str) -> &'static str {
     FAULTS.iter().copied().find(|f| *f == s).unwrap_or("none")
 }
 
-fn generate(rng: &mut Rng) -> Scn {
+fn generate(rng: &mut Rng, deep: bool) -> Scn {
     let pair = rng.usize_below(PAIR_COUNT);
     let grid = rng.chance(0.5);
     let period = if grid {
@@ -73,7 +73,7 @@ fn generate(rng: &mut Rng) -> Scn {
     let p_return = on(rng, 0.4);
     let jitter = on(rng, 0.5);
     let p_event = *rng.pick(&[0.15, 0.3, 0.5]);
-    let n_ops = rng.range(3, 40) as usize;
+    let n_ops = if deep && rng.chance(0.33) { rng.range(40, 160) as usize } else { rng.range(3, 40) as usize };
     let mut ops: Vec<(Op, &'static str)> = Vec::new();
     let mut cur = 0u8; // unknown initial state; only used for biasing
     let mut prev = 0u8;
@@ -259,8 +259,8 @@ impl Engine for MacroEngine {
     fn properties(&self) -> &'static [&'static str] {
         &["C16"]
     }
-    fn generate(&self, rng: &mut Rng, _property: &str, _tier: Tier) -> Scn {
-        generate(rng)
+    fn generate(&self, rng: &mut Rng, _property: &str, tier: Tier) -> Scn {
+        generate(rng, tier == Tier::Thorough)
     }
     fn execute(&self, scn: &Scn, _property: &str) -> RunOutcome {
         execute(scn)
